@@ -121,6 +121,27 @@ theorem winv_init (canon tmBody : α → Dtor) (noneName : α) (h : canon noneNa
   subst he
   exact h.symm
 
+/-- **injective keys**: two destructors registered under different names each get a `case` that
+    runs their own code (whatever is registered later does not change that) -/
+theorem distinct_keys_own_destructor {canon : α → Dtor} {t : Table α Dtor} (hi : t.Inv)
+    (hc : ∀ e ∈ t.code, e.lines = canon e.name) (n1 n2 : α) :
+    let r1 := addCapsuleCode t n1 (canon n1)
+    let r2 := addCapsuleCode r1.1 n2 (canon n2)
+    caseBody r2.1 r1.2 = some (canon n1) ∧ caseBody r2.1 r2.2 = some (canon n2) := by
+  obtain ⟨a1, b1, c1⟩ := add_canon hi hc n1
+  obtain ⟨_, _, c2⟩ := add_canon a1 b1 n2
+  exact ⟨caseBody_add_stable a1 n2 _ c1, c2⟩
+
+/-- the registry is keyed by name only: a second class registered under the SAME key (e.g. the
+    unqualified class name of `alpha::Item` and `beta::Item`) gets the first class's index, and
+    releasing its objects runs the first class's destructor on them (mismatch) -/
+theorem same_key_runs_first_destructor :
+    let t0 : Table Nat Dtor := Table.init 0 .nothing
+    let r1 := addCapsuleCode t0 7 (.del 1)
+    let r2 := addCapsuleCode r1.1 7 (.del 2)
+    r2.2 = r1.2 ∧ caseBody r2.1 r2.2 = some (.del 1) ∧
+    (run [.nothing, .del 1] St.init [.construct 0 2 1, .release 0]).mismatch = true := by decide
+
 /-- the request is consistent with the static meaning of names and typemaps -/
 structure FindIn.Consistent (canon tmBody : α → Dtor) (x : FindIn α) : Prop where
   body : (if x.cxxToC then Dtor.del x.ty else Dtor.free) = tmBody x.tm
